@@ -1,6 +1,7 @@
 import Zstd.Driver.Tables
 import Zstd.Driver.Spec
 import Zstd.Driver.Dec
+import Zstd.Driver.Matcher
 /-
 `zmodel`: the model side of the correspondence check.  Reads one request per line on stdin
 (`<engine> <op> <args…>`), answers one line on stdout.  Stateless engines are pure functions
@@ -10,11 +11,13 @@ open Zstd Zstd.Driver
 
 structure St where
   dec : Dec.St := Dec.init
+  matcher : Zstd.Driver.Matcher.State := {}
 
 def step (st : St) (line : String) : St × String :=
   match line.trimAscii.toString.splitOn " " with
   | "tables" :: cmd :: args => (st, Tables.handle cmd args)
   | "spec" :: cmd :: args => (st, Driver.Spec.handle cmd args)
+  | "matcher" :: cmd :: args => let (m, o) := Matcher.step st.matcher cmd args; ({ st with matcher := m }, o)
   | "dec" :: args => let (s2, o) := Dec.step st.dec args; ({ st with dec := s2 }, o)
   | _ => (st, badOp)
 
